@@ -10,7 +10,8 @@ once (the published JSON appears in the verbose log), and stop again.
 
 Further cycles of C15: stalled stops (the process frozen during the grace period, stall_cycle), early stops (the signal
 arrives while run() is still loading a large cache file of the previous run, early_stop_cycle) and same-PID restarts
-(stop/start in PID namespaces with the pid file kept, same_pid_cycle).
+(stop/start in PID namespaces with the pid file kept, same_pid_cycle), start-up stops (the signal arrives while main is
+still reading its options, startup_stop_cycle).
 """
 import json, os, random, signal, socket, struct, subprocess, sys, time, shutil, urllib.request
 import check as C
@@ -107,6 +108,9 @@ class Vflow:
         logged instead of waiting for all four listeners."""
         self.wdir, self.ports, self.binary, self.workers, self.extra_args = wdir, ports, binary, workers, list(extra_args)
         self.pidns, self.ready = pidns, ready
+        # listeners that report "… is running (UDP": four, less those switched off on the command line
+        self.expect_running = 4 - sum(1 for a in self.extra_args if a in ("-ipfix-enabled=false", "-netflow9-enabled=false",
+                                                                          "-netflow5-enabled=false", "-sflow-enabled=false"))
         self.proc = None
         self.errf = None
 
@@ -153,7 +157,7 @@ class Vflow:
                 return False
             try:
                 lg = open(self.errpath, "rb").read()
-                if (self.ready in lg) if self.ready else (lg.count(b"is running (UDP") >= 4):
+                if (self.ready in lg) if self.ready else (lg.count(b"is running (UDP") >= self.expect_running):
                     return True
             except OSError:
                 pass
@@ -821,6 +825,192 @@ def same_pid_cycle(n, seed, binary, params=None):
         shutil.rmtree(wdir, ignore_errors=True)
 
 
+# ---------------------------------------------------------------- start-up stops (F32)
+
+_SMALL = {}
+_SMALL_LOCK = threading.Lock()
+
+
+def small_cache_files():
+    """a pair of small valid template cache files of an "earlier run" (`corr bigcache gen`: 20 exporters x 5 templates x 8
+    fields, written by the real decoder + Dump), generated once per run: {"ipfix": {"path", "templates", "sha256"}, "nf9": …}
+    or {"error": …}"""
+    with _SMALL_LOCK:
+        if not _SMALL:
+            out = {}
+            for proto in ("ipfix", "nf9"):
+                path = os.path.join(C.WORK, "smallcache-%d-%s.cache" % (os.getpid(), proto))
+                rc, kv, txt = bigcache_tool("gen", proto, path, 20, 5, 8)
+                if rc != 0 or "sha256" not in kv:
+                    out = {"error": "corr bigcache gen failed: " + txt}
+                    break
+                out[proto] = {"path": path, "templates": int(kv["templates"]), "sha256": kv["sha256"]}
+            _SMALL.update(out)
+        return dict(_SMALL)
+
+
+def remove_small_cache_files():
+    for info in _SMALL.values():
+        if isinstance(info, dict) and info.get("path") and os.path.exists(info["path"]):
+            os.remove(info["path"])
+    _SMALL.clear()
+
+
+def dead_pid():
+    """the process id of a process that has just ended (what a pid file of an earlier run records)"""
+    p = subprocess.Popen(["/bin/true"])
+    p.wait()
+    return p.pid
+
+
+def startup_stop_cycle(n, seed, binary, params=None):
+    """a stop DURING the start (F32): SIGTERM / SIGINT is delivered `offset_ms` (0 .. 40 ms, dense at 0 .. 20 ms) after the
+    exec of the collector, i.e. while `main` is still reading its options (flags, configuration file, pid-file test — which
+    forks `kill -0 <pid>` when a pid file of an earlier run is present: `stale_pid`, half of the cycles —, pid-file write),
+    or (`trigger` = "pidfile" / "log") at the moment the harness sees the cycle's pid file hold the new process's pid / the
+    first line in the collector's log, plus `offset_ms`. C15: "all signal arrival times": exit status 0.
+
+    Verdict with certainty only. The instants before the Go runtime has installed its handlers and before `main` runs are the
+    operating system's (default action of the signal: the process ends with the signal as its wait status): a process that
+    ended by the signal WITHOUT evidence that `main` was already running gives no verdict (`killed before-main`). Evidence
+    that `main` was running when the signal arrived: the cycle's own fresh pid file holds this process's pid (written by
+    vFlowPIDWrite at the end of GetOptions), or the collector's log holds a line (the logger is used by GetOptions, i.e. by
+    `main`, only). Then `main` had had the chance to install its handler: `fail:killed`. Exit status 0: no panic, exit within
+    6 s, and both template cache files of the earlier run (small valid files written by the real code) still hold every
+    template they held (loaded back with the real GetCache: `corr bigcache digest`). returns (impl_line, verdict, sample)"""
+    rng = random.Random(seed * 100003 + n * 97 + 41)
+    params = dict(params or {})
+    sig = getattr(signal, params.get("signal") or rng.choice(["SIGTERM", "SIGTERM", "SIGINT"]))
+    trigger = params.get("trigger") or ["offset", "offset", "pidfile", "log"][n % 4]
+    if "offset_ms" in params:
+        offset_ms = float(params["offset_ms"])
+    elif trigger == "offset":
+        offset_ms = round(rng.uniform(0, 20) if rng.random() < 0.8 else rng.uniform(20, 40), 2)
+    else:
+        offset_ms = round(rng.choice([0, 0, 0.05, 0.2, 1.0]), 2)
+    stale_pid = bool(params["stale_pid"]) if "stale_pid" in params else (n // 4) % 2 == 0
+    verbose = bool(params["verbose"]) if "verbose" in params else (n // 8) % 2 == 0
+    sample = {"pattern": "startup-stop", "signal": sig.name, "trigger": trigger, "offset_ms": offset_ms, "stale_pid": stale_pid, "verbose": verbose}
+    small = small_cache_files()
+    if "error" in small:
+        return "no-cache-files", "fail:build " + small["error"], sample
+    wdir = os.path.join(C.WORK, "e2e-startstop-%d-%d-%d" % (os.getpid(), seed, n))
+    shutil.rmtree(wdir, ignore_errors=True)
+    os.makedirs(wdir)
+    proc = None
+    try:
+        for proto in ("ipfix", "nf9"):
+            shutil.copyfile(small[proto]["path"], os.path.join(wdir, CACHE_FILE[proto]))
+        pidpath = os.path.join(wdir, "vflow.pid")
+        if stale_pid:
+            open(pidpath, "w").write(str(dead_pid()))
+        p = free_ports(5)
+        errpath = os.path.join(wdir, "stderr.log")
+        errf = open(errpath, "wb")
+        args = [binary, "-config", os.path.join(wdir, "absent.conf"), "-pid-file", pidpath,
+                "-ipfix-port", str(p[0]), "-sflow-port", str(p[1]), "-netflow5-port", str(p[2]), "-netflow9-port", str(p[3]),
+                "-stats-http-addr", "127.0.0.1", "-stats-http-port", str(p[4]), "-stats-format", "restful",
+                "-ipfix-tpl-cache-file", os.path.join(wdir, "ipfix.cache"), "-netflow9-tpl-cache-file", os.path.join(wdir, "nf9.cache"),
+                "-producer-enabled=false", "-dynamic-workers=false", "-ipfix-rpc-enabled=false",
+                "-ipfix-workers", "2", "-netflow9-workers", "2", "-netflow5-workers", "2", "-sflow-workers", "2",
+                "-verbose=%s" % ("true" if verbose else "false")]
+        t_exec = time.time()
+        proc = subprocess.Popen(args, stdout=errf, stderr=errf, cwd=wdir)
+        own = str(proc.pid).encode()
+        if trigger == "pidfile":
+            # busy-wait until the pid file holds the new process's pid (at most 2 s)
+            while time.time() - t_exec < 2 and proc.poll() is None:
+                try:
+                    if open(pidpath, "rb").read() == own:
+                        break
+                except OSError:
+                    pass
+        elif trigger == "log":
+            while time.time() - t_exec < 2 and proc.poll() is None:
+                try:
+                    if os.path.getsize(errpath) > 0:
+                        break
+                except OSError:
+                    pass
+        t_wait = time.time() + offset_ms / 1000.0 if trigger != "offset" else t_exec + offset_ms / 1000.0
+        while time.time() < t_wait:
+            pass
+        t0 = time.time()
+        try:
+            os.kill(proc.pid, sig)
+        except ProcessLookupError:
+            pass
+        sample["signal_ms_after_exec"] = round((t0 - t_exec) * 1000, 2)
+        try:
+            rc = proc.wait(timeout=15)
+        except subprocess.TimeoutExpired:
+            proc.kill()
+            proc.wait()
+            rc = "timeout"
+        lat = time.time() - t0
+        errf.close()
+        log1 = open(errpath, "rb").read().decode("utf-8", "replace")
+        try:
+            pid_now = open(pidpath, "rb").read()
+        except OSError:
+            pid_now = None
+        sample.update({"exit": rc, "latency_s": round(lat, 2), "pid_file_written": pid_now == own, "log_lines": log1.count("\n")})
+        what = "%s %.2f ms after exec%s" % (sig.name, sample["signal_ms_after_exec"],
+                                            "" if trigger == "offset" else " (%.2f ms after the harness saw %s)" % (
+                                                offset_ms, "the pid file hold the pid" if trigger == "pidfile" else "the first log line"))
+
+        def files_intact():
+            for proto in ("ipfix", "nf9"):
+                fn = os.path.join(wdir, CACHE_FILE[proto])
+                rc2, kv, txt = bigcache_tool("digest", proto, fn)
+                if rc2 != 0 or "templates" not in kv:
+                    try:
+                        head = open(fn, "rb").read(60).decode("utf-8", "replace")
+                    except OSError as e:
+                        head = repr(e)
+                    return "the cache file %s of the earlier run cannot be loaded any more after %s (exit %s): %s" % (CACHE_FILE[proto], what, rc, head)
+                if int(kv["templates"]) != small[proto]["templates"] or kv["sha256"] != small[proto]["sha256"]:
+                    return "the cache file %s held %d templates of the earlier run; after %s and exit %s it holds %d" % (
+                        CACHE_FILE[proto], small[proto]["templates"], what, rc, int(kv["templates"]))
+            return None
+
+        if isinstance(rc, int) and rc < 0:
+            evidence = []
+            if pid_now == own:
+                evidence.append("the cycle's pid file already held this process's pid %s (written by vFlowPIDWrite at the end of GetOptions)" % own.decode())
+            if log1.strip():
+                evidence.append("GetOptions had already logged %r" % log1.strip().split("\n")[-1][-70:])
+            damaged = files_intact()
+            if damaged:
+                return "killed cache-damaged", "fail:wiped " + damaged, sample
+            if rc != -int(sig):
+                return "killed=%s" % rc, "fail:exit wait status %s after %s: %s" % (rc, what, log1[-300:].replace("\n", " | ")), sample
+            if evidence:
+                return "killed in-main", ("fail:killed the collector ended by the signal's default action (wait status %s) instead of exit status 0 after %s although main "
+                                          "was running: %s%s" % (rc, what, "; ".join(evidence), " [a pid file of an earlier run was present]" if stale_pid else "")), sample
+            return "killed before-main", "", sample           # skipped:before-main — the operating system's and the runtime's instants
+        bad = [w for w in ("panic:", "fatal error", "DATA RACE", "send on closed channel") if w in log1]
+        if rc == 1 and "address already in use" in log1:
+            return "not-started", "", sample
+        if rc == 1 and "already is running" in log1:
+            return "stale-pid-alive", "", sample                # the recorded pid was taken by a new process meanwhile
+        if rc != 0:
+            return "exit=%s" % rc, "fail:exit status %s after %s (latency %.1fs): %s" % (rc, what, lat, log1[-300:].replace("\n", " | ")), sample
+        if bad:
+            return "exit=0 stderr=%s" % bad[0], "fail:stderr the collector logged %r while stopping: %s" % (bad[0], log1[-300:].replace("\n", " | ")), sample
+        if lat > 6.0:
+            return "exit=0 slow", "fail:latency exit took %.1fs after %s" % (lat, what), sample
+        damaged = files_intact()
+        if damaged:
+            return "exit=0 templates-lost", "fail:wiped " + damaged, sample
+        return "exited=1 panic=0 templates-kept=1", "ok", sample
+    finally:
+        if proc and proc.poll() is None:
+            proc.kill()
+            proc.wait()
+        shutil.rmtree(wdir, ignore_errors=True)
+
+
 class E2EResult(C.CorrResult):
     pass
 
@@ -927,37 +1117,93 @@ def shutdown_cycles(pid, tier, seed):
     collect("same-pid", fp[:n_samepid])
     collect("same-pid-witness", fp[n_samepid:])
     ex2.shutdown()
+    # start-up stops (F32: SIGTERM / SIGINT while main is still reading its options): the witnesses of corpus/C15 first, then
+    # generated ones; they run last, four at a time, with nothing else running (the harness aims at windows of microseconds)
+    n_startstop = 32 if tier == "quick" else 320
+    startstop_w = [dict(w, repeat=None) for w in corpus_stalls(pid, "startup-stop") for _ in range(int(w.get("repeat", 1)))]
+    with cf.ThreadPoolExecutor(max_workers=4) as ex:
+        fss = []
+        for i, w in enumerate(startstop_w + [None] * n_startstop):
+            args = (1000 + i if w is not None else i - len(startstop_w), seed, binary, w)
+            f = ex.submit(startup_stop_cycle, *args)
+            f.rerun = (startup_stop_cycle, args)
+            fss.append(f)
+        collect("startup-stop-witness", fss[:len(startstop_w)])
+        collect("startup-stop", fss[len(startstop_w):])
+    remove_small_cache_files()
     big = {k: {x: v.get(x) for x in ("octets", "templates", "load_ms", "exporters", "error") if x in v} for k, v in _BIG.items()}
     remove_big_cache_files()
     r.summary = {"cycles": n, "stalled_stops": n_stall + len(witnesses), "early_stops": len(fe), "same_pid_restarts": len(fp),
+                 "startup_stops": len(fss), "startup_stops_before_main": r.stats.get("killed before-main", 0),
                  "pid_namespaces": bool(unshare_cmd()), "big_cache_files": big,
                  "ok": r.oracle_ok, "failed": len(r.oracle_fail),
                  "max_exit_latency_s": max(lat) if lat else None, "distribution": r.stats}
     return r
 
 
-def startup_cycle(n, seed, binary):
-    """start the collector with the shipped ipfix.elements installed in its configuration directory while exporters are
+# extension elements an installation may add to its ipfix.elements: (abstract data type, octets, the octets sent, the JSON value)
+EXT_TYPES = [("unsigned32", 4, bytes([0, 0, 0, 42]), "42"), ("unsigned16", 2, bytes([1, 2]), "258"), ("unsigned64", 8, bytes(7) + b"\x07", "7"),
+             ("ipv4Address", 4, bytes([10, 0, 0, 2]), '"10.0.0.2"'), ("unsigned8", 1, bytes([200]), "200")]
+STARTUP_VARIANTS = {"all-on": [], "ipfix-off": ["-ipfix-enabled=false"], "nf9-off": ["-netflow9-enabled=false"],
+                    "both-off": ["-ipfix-enabled=false", "-netflow9-enabled=false"]}
+
+
+def elements_file_with(ext_id, ext_type):
+    """the text of an ipfix.elements file: the shipped one + one extension element (enterprise 0, an id the shipped table
+    does not use) of the given abstract data type"""
+    txt = open(os.path.join(C.REPO, "scripts", "ipfix.elements")).read()
+    lines = txt.split("\n")
+    # the block of enterprise 0 starts at the line "0:" and ends before the next top-level key (or at the end)
+    i0 = lines.index("0:")
+    end = next((j for j in range(i0 + 1, len(lines)) if lines[j] and not lines[j].startswith(" ")), len(lines))
+    while end > i0 and not lines[end - 1].strip():
+        end -= 1
+    ext = ["  %d:" % ext_id, "  - verifExtensionElement", "  - %s" % ext_type]
+    return "\n".join(lines[:end] + ext + lines[end:]) + ("" if txt.endswith("\n") and lines[-1] == "" else "\n")
+
+
+def startup_cycle(n, seed, binary, params=None):
+    """start the collector with an ipfix.elements file installed in its configuration directory while exporters are
     already sending NetFlow v9 and IPFIX (templates + data): it must come up, stay up and stop cleanly (C20: both load
-    paths; C01: no datagram terminates the process)"""
+    paths; C01: no datagram terminates the process).
+
+    The installed file is the cycle's own: the shipped one + one EXTENSION element (an id the built-in table does not have,
+    a random abstract data type), and the templates the exporters announce use that element (F34). The information model
+    is shared by the IPFIX and the NetFlow v9 decoder, so whichever of the two is switched on (`variant`: both, IPFIX off,
+    NetFlow v9 off, both off — then nothing decodes and no load is needed) must publish the element decoded with the
+    FILE's type: decoding of one protocol must not depend on the switch of the other. returns (impl_line, verdict, sample)"""
     import threading
     rng = random.Random(seed * 7919 + n)
+    params = dict(params or {})
     wdir = os.path.join(C.WORK, "e2e-start-%d-%d-%d" % (os.getpid(), seed, n))
     shutil.rmtree(wdir, ignore_errors=True)
     os.makedirs(wdir)
-    installed = n % 4 != 3            # three start-ups in four with the file present, one without
+    installed = bool(params["elements_file"]) if "elements_file" in params else n % 4 != 3   # three start-ups in four with the file present
+    variant = params.get("variant") or ["all-on", "ipfix-off", "nf9-off", "all-on", "ipfix-off", "both-off", "ipfix-off", "nf9-off"][(n // 4) % 8]
+    ext_id = int(params.get("ext_id") or rng.randint(434, 32767))
+    tname, tlen, toctets, tjson = next(t for t in EXT_TYPES if t[0] == params["ext_type"]) if "ext_type" in params else EXT_TYPES[rng.randrange(len(EXT_TYPES))]
+    sample = {"elements_file": installed, "variant": variant}
     if installed:
-        shutil.copy(os.path.join(C.REPO, "scripts", "ipfix.elements"), os.path.join(wdir, "ipfix.elements"))
-    vf = Vflow(wdir, free_ports(5), binary)
-    sample = {"elements_file": installed}
+        open(os.path.join(wdir, "ipfix.elements"), "w").write(elements_file_with(ext_id, tname))
+        sample.update({"ext_id": ext_id, "ext_type": tname})
+    vf = Vflow(wdir, free_ports(5), binary, extra_args=STARTUP_VARIANTS[variant])
+    probed = [pr for pr in ("nf9", "ipfix") if installed and not (pr == "ipfix" and "ipfix" in variant or pr == "nf9" and "nf9" in variant) and variant != "both-off"]
     stop = threading.Event()
     sent = [0]
 
     def blast():
         s = sender(2 + rng.randrange(5))
         fields = [(8, 4), (12, 4), (1, 8), (2, 8)]
+        if installed:
+            fields = [(ext_id, tlen)] + fields
         tpl9 = v9_msg([tpl_set("nf9", 300, fields)], 1)
         tpl10 = ipfix_msg([tpl_set("ipfix", 300, fields)], 1)
+
+        def dset():
+            # three records; the extension element (first field) carries the octets whose rendering the oracle knows
+            rl = sum(l for _, l in fields) - (tlen if installed else 0)
+            recs = b"".join((toctets if installed else b"") + bytes(rng.randrange(256) for _ in range(rl)) for _ in range(3))
+            return struct.pack(">HH", 300, 4 + len(recs)) + recs
         k = 0
         while not stop.is_set():
             try:
@@ -965,8 +1211,8 @@ def startup_cycle(n, seed, binary):
                 if k % 50 == 0:
                     s.sendto(tpl9, ("127.0.0.1", p[3]))
                     s.sendto(tpl10, ("127.0.0.1", p[0]))
-                s.sendto(v9_msg([data_set(300, fields, rng, 3)], k), ("127.0.0.1", p[3]))
-                s.sendto(ipfix_msg([data_set(300, fields, rng, 3)], k), ("127.0.0.1", p[0]))
+                s.sendto(v9_msg([dset()], k), ("127.0.0.1", p[3]))
+                s.sendto(ipfix_msg([dset()], k), ("127.0.0.1", p[0]))
                 sent[0] += 2
             except OSError:
                 pass                               # nothing listens yet (ICMP port unreachable): keep knocking
@@ -1004,7 +1250,30 @@ def startup_cycle(n, seed, binary):
             return "raced", "fail:startup race / crash report after a start under traffic (ipfix.elements %s): %s" % (
                 "installed" if installed else "absent", log[max(0, i - 20):i + 900].replace("\n", " | ")), sample
         sample["decoded"] = log.count('"DataSets":[[')
-        return "started=1 alive=1 clean=1", "ok", sample
+        # the extension element of the installed file: every decoder that is switched on publishes it with the file's type
+        want = '{"I":%d,"V":%s}' % (ext_id, tjson)
+        seen = {}
+        for pr in probed:
+            agent_lines = [l for l in log.split("\n") if '"DataSets":[[' in l and (('"Version":9' in l) == (pr == "nf9"))]
+            missing = ("Netflow element key (%d) not exist" if pr == "nf9" else "IPFIX element key (%d) not exist") % ext_id
+            seen[pr] = {"published": sum(1 for l in agent_lines if want in l), "not_exist": log.count(missing),
+                        "other": next((l[l.find('"DataSets"'):][:120] for l in agent_lines if want not in l), None)}
+        if probed:
+            sample["extension_element"] = seen
+        for pr in probed:
+            name = {"nf9": "NetFlow v9", "ipfix": "IPFIX"}[pr]
+            if seen[pr]["not_exist"]:
+                i = log.find("element key (%d) not exist" % ext_id)
+                return "ext-unknown %s" % pr, ("fail:not-loaded the installed ipfix.elements adds element %d (%s) and the %s templates use it, but the %s decoder "
+                                                "does not know it (%d x %r, %d messages with it published) when started with %s: decoding depends on the switch of another protocol"
+                                                % (ext_id, tname, name, name, seen[pr]["not_exist"], log[max(0, i - 8):i + 40].replace("\n", " "), seen[pr]["published"],
+                                                   " ".join(STARTUP_VARIANTS[variant]) or "the default switches")), sample
+            if seen[pr]["other"]:
+                return "ext-differs %s" % pr, "fail:not-loaded element %d of the installed ipfix.elements (%s, octets %s) must be published as %s by the %s decoder; published: %s" % (
+                    ext_id, tname, toctets.hex(), want, name, seen[pr]["other"]), sample
+        if probed and not all(seen[pr]["published"] for pr in probed):
+            return "ext-unseen", "", sample           # no data set of a probed protocol was published in the 0.4 s (loss, slow start): no verdict
+        return "started=1 alive=1 clean=1" + (" ext=%s" % "+".join(probed) if probed else ""), "ok", sample
     finally:
         stop.set()
         if vf.proc and vf.proc.poll() is None:
@@ -1024,10 +1293,24 @@ def startup_cycles(pid, tier, seed):
         return r
     # one installed-file start-up in three shows the unsynchronised access on the unrepaired tree: 32 cycles miss it with p < 1e-4
     n = 32 if tier == "quick" else 320
+    jobs = [(i, None) for i in range(n)]
+    if pid == "C06":
+        # C06 (NetFlow v9 records decoded as their templates describe, for templates over the LOADED information model): the
+        # start-ups whose NetFlow v9 exporter uses an extension element of the installed file, with the IPFIX listener off / on
+        n = 8 if tier == "quick" else 64
+        jobs = [(i, {"elements_file": True, "variant": "ipfix-off" if i % 4 else "all-on"}) for i in range(n)]
+    # the witnesses of corpus/<pid>/e2e-startup--*.txt first (one JSON object per line = parameters of a cycle)
+    wdir = os.path.join(C.ROOT, "corpus", pid)
+    wit = []
+    if os.path.isdir(wdir):
+        for fn in sorted(os.listdir(wdir)):
+            if fn.startswith("e2e-startup--") and fn.endswith(".txt"):
+                wit += [json.loads(l) for l in open(os.path.join(wdir, fn)) if l.strip() and not l.startswith("#")]
+    jobs = [(1000 + k, w) for k, w in enumerate(wit)] + jobs
     import concurrent.futures as cf
     with cf.ThreadPoolExecutor(max_workers=6) as ex:
-        futs = [ex.submit(startup_cycle, i, seed, binary) for i in range(n)]
-        for i, f in enumerate(futs):
+        futs = [ex.submit(startup_cycle, i, seed, binary, w) for i, w in jobs]
+        for (i, _), f in zip(jobs, futs):
             line, verdict, sample = f.result()
             r.evaluations += 1
             case = "startup-cycle %d seed %d %s" % (i, seed, json.dumps(sample))
@@ -1039,7 +1322,7 @@ def startup_cycles(pid, tier, seed):
                 r.oracle_fail.append({"kind": "e2e-startup", "seed": seed, "session": [case], "verdict": verdict, "impl": line})
             if len(r.samples) < 3:
                 r.samples.append({"case": case, "impl": line})
-    r.summary = {"cycles": n, "ok": r.oracle_ok, "failed": len(r.oracle_fail), "distribution": r.stats}
+    r.summary = {"cycles": len(jobs), "ok": r.oracle_ok, "failed": len(r.oracle_fail), "distribution": r.stats}
     return r
 
 
@@ -1180,10 +1463,18 @@ def replay(d):
     elif tag in ("early-stop", "early-stop-witness"):
         res = early_stop_cycle(n if tag == "early-stop" else 1000 + n, seed, binary, {k: sample[k] for k in ("proto", "signal", "offset_s", "stall_s") if k in sample})
         remove_big_cache_files()
+    elif tag in ("startup-stop", "startup-stop-witness"):
+        # the window is microseconds to milliseconds wide: the same parameters are run up to 16 times, the first failure is shown
+        for _ in range(16):
+            res = startup_stop_cycle(n if tag == "startup-stop" else 1000 + n, seed, binary,
+                                     {k: sample[k] for k in ("signal", "trigger", "offset_ms", "stale_pid", "verbose") if k in sample})
+            if res[1].startswith("fail"):
+                break
+        remove_small_cache_files()
     elif tag in ("same-pid", "same-pid-witness"):
         res = same_pid_cycle(n if tag == "same-pid" else 1000 + n, seed, binary, {k: sample[k] for k in ("signal",) if k in sample})
     elif tag == "startup-cycle":
-        res = startup_cycle(n, seed, binary)
+        res = startup_cycle(n, seed, binary, {k: sample[k] for k in ("elements_file", "variant", "ext_id", "ext_type") if k in sample})
     elif tag == "redefinition-cycle":
         res = redefinition_cycle(n, seed, binary, int(sample.get("workers", 4)))
     elif tag == "traffic-cycle":
